@@ -16,8 +16,8 @@ import (
 
 // step is one delivery of a batch through one path.
 type step struct {
-	path   string // setraw | message | pull | pull-forced | stream-push
-	batch  []*item
+	path  string // setraw | message | pull | pull-forced | stream-push
+	batch []*item
 }
 
 func (s step) desc() map[string]any {
